@@ -369,8 +369,16 @@ func cmdCheck(args []string) {
 		},
 	}
 	b, _ := json.MarshalIndent(ev, "", " ")
-	os.MkdirAll(filepath.Join(vdir, "evidence"), 0o755)
-	if err := os.WriteFile(filepath.Join(vdir, "evidence", *prop+".json"), append(b, '\n'), 0o644); err != nil {
+	evDir := filepath.Join(vdir, "evidence")
+	if os.Getenv("VERIF_REPO") != "" && os.Getenv("VERIF_REPO") != "/repo" {
+		// a run against a scratch copy (selftest mutants): its evidence does not describe /repo
+		evDir = filepath.Join(envOr("VERIF_OUT", filepath.Join(vdir, "out")), "evidence")
+	}
+	if d := os.Getenv("VERIF_EVIDENCE_DIR"); d != "" {
+		evDir = d // runs against a deliberately changed tree (seeded changes) keep their evidence apart
+	}
+	os.MkdirAll(evDir, 0o755)
+	if err := os.WriteFile(filepath.Join(evDir, *prop+".json"), append(b, '\n'), 0o644); err != nil {
 		internal("%v", err)
 	}
 	for _, l := range lines {
